@@ -37,769 +37,819 @@ Definition e_packet_types : list Z := [0; 1; 2; 3].           (* SINGLE, START, 
 Definition e_avdtp_body_offsets : list Z := [2; 3; 1].        (* SINGLE pdu[2:], START pdu[3:], CONTINUE/END pdu[1:] *)
 Definition e_avctp_pid_offsets : list Z := [1; 2].
 
-Definition e_skel_sdp_match_services : list Z := [
-  (* def match_services(self, search_pattern) *) 27233458328959;
-  (* matching_services = {} *) 145171226715357;
-  (* For (handle, service) in self.service_records.items() *) 280387846848786;
-  (* If all((any((ServiceAttribute.is_uuid_in_value(uuid.value, attribute.value) for attribute in service)) for uuid in search_pattern.value)) *) 171276220814624;
-  (* matching_services[handle] = service *) 53984301826248;
-  (* End *) 269221943068527;
-  (* End *) 269221943068527;
-  (* return matching_services *) 119590829367354
-].
-Definition e_skel_sdp_on_connection : list Z := [
-  (* def on_connection(self, channel) *) 232593203283989;
-  (* self.select_channel(channel) *) 155294401517917;
-  (* channel.sink = lambda pdu: self.on_channel_pdu(channel, pdu) *) 5779057520440;
-  (* channel.on(channel.EVENT_CLOSE, lambda: self.on_channel_close(channel)) *) 268121794714274
-].
-Definition e_skel_sdp_select_channel : list Z := [
-  (* def select_channel(self, channel) *) 112993297731925;
-  (* If channel is self.channel *) 28712975898073;
-  (* return *) 124828667829939;
-  (* End *) 269221943068527;
-  (* If self.channel is not None *) 266128752596582;
-  (* self.pending_responses[self.channel] = self.current_response *) 154671246063862;
-  (* End *) 269221943068527;
-  (* self.channel = channel *) 142852458974650;
-  (* self.current_response = self.pending_responses.pop(channel, None) *) 193565599193559
-].
-Definition e_skel_sdp_on_channel_pdu : list Z := [
-  (* def on_channel_pdu(self, channel, pdu) *) 171852605774612;
-  (* self.select_channel(channel) *) 155294401517917;
-  (* self.on_pdu(pdu) *) 100187199908227
-].
-Definition e_skel_sdp_on_channel_close : list Z := [
-  (* def on_channel_close(self, channel) *) 206829375827374;
-  (* self.pending_responses.pop(channel, None) *) 95985653775782;
-  (* If channel is self.channel *) 28712975898073;
-  (* self.channel = None *) 127360546732939;
-  (* self.current_response = None *) 262077239836860;
-  (* End *) 269221943068527
-].
-Definition e_skel_sdp_check_continuation : list Z := [
-  (* def check_continuation(self, continuation_state, transaction_id) *) 185872620809897;
-  (* If len(continuation_state) > 1 *) 221551334840230;
-  (* If self.current_response is None or continuation_state != self.CONTINUATION_STATE *) 231343863047931;
-  (* self.send_response(SDP_ErrorResponse(transaction_id=transaction_id, error_code=ErrorCode.INVALID_CONTINUATION_STATE)) *) 196473944580284;
-  (* return None *) 175316439560358;
-  (* End *) 269221943068527;
-  (* return True *) 61131009958699;
-  (* End *) 269221943068527;
-  (* self.current_response = None *) 262077239836860;
-  (* return False *) 254017159767518
-].
-Definition e_skel_sdp_get_next_response_payload : list Z := [
-  (* def get_next_response_payload(self, maximum_size) *) 144189032493593;
-  (* If len(self.current_response) > maximum_size *) 56158964185574;
-  (* payload = self.current_response[:maximum_size] *) 276093349316536;
-  (* continuation_state = Server.CONTINUATION_STATE *) 257676051545304;
-  (* self.current_response = self.current_response[maximum_size:] *) 42299383555298;
-  (* Else *) 172038525209843;
-  (* payload = self.current_response *) 85769018802476;
-  (* continuation_state = bytes([0]) *) 155870661333826;
-  (* self.current_response = None *) 262077239836860;
-  (* End *) 269221943068527;
-  (* return (payload, continuation_state) *) 109806984058507
-].
-Definition e_skel_sdp_get_service_attributes : list Z := [
-  (* def get_service_attributes(service, attribute_ids) *) 141340432804657;
-  (* attributes = [] *) 221059264296718;
-  (* For attribute_id in attribute_ids *) 209464820431271;
-  (* If attribute_id.value_size == 4 *) 186270889992807;
-  (* id_range_start = attribute_id.value >> 16 *) 163270848883548;
-  (* id_range_end = attribute_id.value & 65535 *) 7544685327693;
-  (* Else *) 172038525209843;
-  (* id_range_start = attribute_id.value *) 159933306338634;
-  (* id_range_end = attribute_id.value *) 267657145033415;
-  (* End *) 269221943068527;
-  (* attributes += [attribute for attribute in service if attribute.id >= id_range_start and attribute.id <= id_range_end] *) 151594511670703;
-  (* End *) 269221943068527;
-  (* attributes.sort(key=lambda x: x.id) *) 8773894419706;
-  (* attribute_list = DataElement.sequence([]) *) 207903229808955;
-  (* For attribute in attributes *) 159615791396784;
-  (* attribute_list.value.append(DataElement.unsigned_integer_16(attribute.id)) *) 280592806546137;
-  (* attribute_list.value.append(attribute.value) *) 104349130877491;
-  (* End *) 269221943068527;
-  (* return attribute_list *) 121915124254532
-].
-Definition e_skel_sdp_on_search : list Z := [
-  (* def on_sdp_service_search_request(self, request) *) 244760371582388;
-  (* If (continuation := self.check_continuation(request.continuation_state, request.transaction_id)) is None *) 271014868672178;
-  (* return *) 124828667829939;
-  (* End *) 269221943068527;
-  (* If not continuation *) 61370094198010;
-  (* matching_services = self.match_services(request.service_search_pattern) *) 78691624017884;
-  (* service_record_handles = list(matching_services.keys()) *) 29292035117181;
-  (* service_record_handles_subset = service_record_handles[:request.maximum_service_record_count] *) 61466644639199;
-  (* self.current_response = (len(service_record_handles), service_record_handles_subset) *) 64090473294222;
-  (* End *) 269221943068527;
-  (* assert isinstance(self.current_response, tuple) *) 138642855219897;
-  (* assert self.channel is not None *) 65323174134098;
-  (* total_service_record_count, service_record_handles = self.current_response *) 85883984511380;
-  (* maximum_service_record_count = (self.channel.peer_mtu - 11) // 4 *) 76135607815632;
-  (* service_record_handles_remaining = service_record_handles[maximum_service_record_count:] *) 2048720563826;
-  (* service_record_handles = service_record_handles[:maximum_service_record_count] *) 150844728709817;
-  (* self.current_response = (total_service_record_count, service_record_handles_remaining) *) 271229056871684;
-  (* continuation_state = Server.CONTINUATION_STATE if service_record_handles_remaining else bytes([0]) *) 112008055755190;
-  (* self.send_response(SDP_ServiceSearchResponse(transaction_id=request.transaction_id, total_service_record_count=total_service_record_count, service_record_handle_list=service_record_handles, continuation_state=continuation_state)) *) 189592417254372
-].
-Definition e_skel_sdp_on_attribute : list Z := [
-  (* def on_sdp_service_attribute_request(self, request) *) 182889533309432;
-  (* If (continuation := self.check_continuation(request.continuation_state, request.transaction_id)) is None *) 271014868672178;
-  (* return *) 124828667829939;
-  (* End *) 269221943068527;
-  (* If not continuation *) 61370094198010;
-  (* service = self.service_records.get(request.service_record_handle) *) 79625165444119;
-  (* If service is None *) 253317631307114;
-  (* self.send_response(SDP_ErrorResponse(transaction_id=request.transaction_id, error_code=ErrorCode.INVALID_SERVICE_RECORD_HANDLE)) *) 239572531648571;
-  (* return *) 124828667829939;
-  (* End *) 269221943068527;
-  (* attribute_list = Server.get_service_attributes(service, request.attribute_id_list.value) *) 174020901594372;
-  (* self.current_response = bytes(attribute_list) *) 144279025998138;
-  (* End *) 269221943068527;
-  (* assert self.channel is not None *) 65323174134098;
-  (* maximum_attribute_byte_count = min(request.maximum_attribute_byte_count, self.channel.peer_mtu - 9) *) 4662227133169;
-  (* attribute_list_response, continuation_state = self.get_next_response_payload(maximum_attribute_byte_count) *) 20842340808727;
-  (* self.send_response(SDP_ServiceAttributeResponse(transaction_id=request.transaction_id, attribute_list=attribute_list_response, continuation_state=continuation_state)) *) 51048705105244
-].
-Definition e_skel_sdp_on_search_attribute : list Z := [
-  (* def on_sdp_service_search_attribute_request(self, request) *) 14195192990270;
-  (* If (continuation := self.check_continuation(request.continuation_state, request.transaction_id)) is None *) 271014868672178;
-  (* return *) 124828667829939;
-  (* End *) 269221943068527;
-  (* If not continuation *) 61370094198010;
-  (* matching_services = self.match_services(request.service_search_pattern).values() *) 191686902224524;
-  (* attribute_lists = DataElement.sequence([]) *) 91762182366855;
-  (* For service in matching_services *) 274129469348011;
-  (* attribute_list = Server.get_service_attributes(service, request.attribute_id_list.value) *) 174020901594372;
-  (* If attribute_list.value *) 11722358713508;
-  (* attribute_lists.value.append(attribute_list) *) 26819713438807;
-  (* End *) 269221943068527;
-  (* End *) 269221943068527;
-  (* self.current_response = bytes(attribute_lists) *) 22356331287541;
-  (* End *) 269221943068527;
-  (* assert self.channel is not None *) 65323174134098;
-  (* maximum_attribute_byte_count = min(request.maximum_attribute_byte_count, self.channel.peer_mtu - 9) *) 4662227133169;
-  (* attribute_lists_response, continuation_state = self.get_next_response_payload(maximum_attribute_byte_count) *) 16685770122413;
-  (* self.send_response(SDP_ServiceSearchAttributeResponse(transaction_id=request.transaction_id, attribute_lists=attribute_lists_response, continuation_state=continuation_state)) *) 99767638431136
-].
-Definition e_skel_sdp_is_uuid_in_value : list Z := [
-  (* def is_uuid_in_value(uuid, value) *) 190611981073094;
-  (* If value.type == DataElement.UUID *) 73396826319334;
-  (* return value.value == uuid *) 70853568639306;
-  (* End *) 269221943068527;
-  (* If value.type == DataElement.SEQUENCE *) 207013061541065;
-  (* For element in value.value *) 219337812256234;
-  (* If ServiceAttribute.is_uuid_in_value(uuid, element) *) 65739687684822;
-  (* return True *) 61131009958699;
-  (* End *) 269221943068527;
-  (* End *) 269221943068527;
-  (* return False *) 254017159767518;
-  (* End *) 269221943068527;
-  (* return False *) 254017159767518
-].
-Definition e_skel_sdp_list_from_data_elements : list Z := [
-  (* def list_from_data_elements(elements) *) 59336123398468;
-  (* attribute_list = [] *) 138420067695082;
-  (* For i in range(0, len(elements) // 2) *) 136292348216782;
-  (* attribute_id, attribute_value = elements[2 * i:2 * (i + 1)] *) 247831467430519;
-  (* If attribute_id.type != DataElement.UNSIGNED_INTEGER *) 79100087991308;
-  (* continue *) 248862997379839;
-  (* End *) 269221943068527;
-  (* attribute_list.append(ServiceAttribute(attribute_id.value, attribute_value)) *) 47474547706632;
-  (* End *) 269221943068527;
-  (* return attribute_list *) 121915124254532
-].
-Definition e_skel_sdp_client_on_pdu : list Z := [
-  (* def on_pdu(self, pdu) *) 47653129893153;
-  (* If not self.pending_request *) 130222241318888;
-  (* return *) 124828667829939;
-  (* End *) 269221943068527;
-  (* assert self.pending_response is not None *) 66221833263088;
-  (* response = SDP_PDU.from_bytes(pdu) *) 109308113374380;
-  (* If self.pending_request.transaction_id != response.transaction_id *) 11894392963577;
-  (* return *) 124828667829939;
-  (* End *) 269221943068527;
-  (* If isinstance(response, SDP_ErrorResponse) *) 27759172483401;
-  (* self.pending_response.set_exception(ProtocolError(error_code=response.error_code)) *) 43725204976551;
-  (* return *) 124828667829939;
-  (* End *) 269221943068527;
-  (* If response.pdu_id != SDP_PDU.RESPONSE_PDU_IDS.get(self.pending_request.pdu_id) *) 163740989306467;
-  (* return *) 124828667829939;
-  (* End *) 269221943068527;
-  (* self.pending_response.set_result(response) *) 64119281687223
-].
-Definition e_skel_sdp_client_search_services : list Z := [
-  (* async def search_services(self, uuids) *) 12708614600881;
-  (* If self.pending_request is not None *) 276079641114484;
-  (* raise InvalidStateError('request already pending') *) 209288316398685;
-  (* End *) 269221943068527;
-  (* If self.channel is None *) 108316869613294;
-  (* raise InvalidStateError('L2CAP not connected') *) 32867082636382;
-  (* End *) 269221943068527;
-  (* service_search_pattern = DataElement.sequence([DataElement.uuid(uuid) for uuid in uuids]) *) 244710989613210;
-  (* service_record_handle_list: list[int] = [] *) 28784959388594;
-  (* continuation_state = bytes([0]) *) 155870661333826;
-  (* watchdog = SDP_CONTINUATION_WATCHDOG *) 66097531734890;
-  (* While watchdog > 0 *) 264579438166698;
-  (* response = await self.send_request(SDP_ServiceSearchRequest(transaction_id=self.make_transaction_id(), service_search_pattern=service_search_pattern, maximum_service_record_count=65535, continuation_state=continuation_state)) *) 62920862118845;
-  (* assert isinstance(response, SDP_ServiceSearchResponse) *) 264568445313900;
-  (* service_record_handle_list += response.service_record_handle_list *) 142076760058728;
-  (* continuation_state = response.continuation_state *) 96648795583662;
-  (* If len(continuation_state) == 1 and continuation_state[0] == 0 *) 279241905288810;
-  (* break *) 23003398819848;
-  (* End *) 269221943068527;
-  (* watchdog -= 1 *) 24033249487443;
-  (* End *) 269221943068527;
-  (* return service_record_handle_list *) 235155836729107
-].
-Definition e_skel_sdp_client_search_attributes : list Z := [
-  (* async def search_attributes(self, uuids, attribute_ids) *) 15586001474712;
-  (* If self.pending_request is not None *) 276079641114484;
-  (* raise InvalidStateError('request already pending') *) 209288316398685;
-  (* End *) 269221943068527;
-  (* If self.channel is None *) 108316869613294;
-  (* raise InvalidStateError('L2CAP not connected') *) 32867082636382;
-  (* End *) 269221943068527;
-  (* service_search_pattern = DataElement.sequence([DataElement.uuid(uuid) for uuid in uuids]) *) 244710989613210;
-  (* attribute_id_list = DataElement.sequence([DataElement.unsigned_integer_32(attribute_id[0] << 16 | attribute_id[1]) if isinstance(attribute_id, tuple) else DataElement.unsigned_integer_16(attribute_id) for attribute_id in attribute_ids]) *) 182974465330964;
-  (* accumulator = b'' *) 275303745396830;
-  (* continuation_state = bytes([0]) *) 155870661333826;
-  (* watchdog = SDP_CONTINUATION_WATCHDOG *) 66097531734890;
-  (* While watchdog > 0 *) 264579438166698;
-  (* response = await self.send_request(SDP_ServiceSearchAttributeRequest(transaction_id=self.make_transaction_id(), service_search_pattern=service_search_pattern, maximum_attribute_byte_count=65535, attribute_id_list=attribute_id_list, continuation_state=continuation_state)) *) 81075954862266;
-  (* assert isinstance(response, SDP_ServiceSearchAttributeResponse) *) 262269767616758;
-  (* accumulator += response.attribute_lists *) 210313337848248;
-  (* continuation_state = response.continuation_state *) 96648795583662;
-  (* If len(continuation_state) == 1 and continuation_state[0] == 0 *) 279241905288810;
-  (* break *) 23003398819848;
-  (* End *) 269221943068527;
-  (* watchdog -= 1 *) 24033249487443;
-  (* End *) 269221943068527;
-  (* attribute_lists_sequences = DataElement.from_bytes(accumulator) *) 192324221912823;
-  (* If attribute_lists_sequences.type != DataElement.SEQUENCE *) 4459745213066;
-  (* return [] *) 30291628539750;
-  (* End *) 269221943068527;
-  (* return [ServiceAttribute.list_from_data_elements(sequence.value) for sequence in attribute_lists_sequences.value if sequence.type == DataElement.SEQUENCE] *) 89766152980180
-].
-Definition e_skel_sdp_client_get_attributes : list Z := [
-  (* async def get_attributes(self, service_record_handle, attribute_ids) *) 236357973517844;
-  (* If self.pending_request is not None *) 276079641114484;
-  (* raise InvalidStateError('request already pending') *) 209288316398685;
-  (* End *) 269221943068527;
-  (* If self.channel is None *) 108316869613294;
-  (* raise InvalidStateError('L2CAP not connected') *) 32867082636382;
-  (* End *) 269221943068527;
-  (* attribute_id_list = DataElement.sequence([DataElement.unsigned_integer_32(attribute_id[0] << 16 | attribute_id[1]) if isinstance(attribute_id, tuple) else DataElement.unsigned_integer_16(attribute_id) for attribute_id in attribute_ids]) *) 182974465330964;
-  (* accumulator = b'' *) 275303745396830;
-  (* continuation_state = bytes([0]) *) 155870661333826;
-  (* watchdog = SDP_CONTINUATION_WATCHDOG *) 66097531734890;
-  (* While watchdog > 0 *) 264579438166698;
-  (* response = await self.send_request(SDP_ServiceAttributeRequest(transaction_id=self.make_transaction_id(), service_record_handle=service_record_handle, maximum_attribute_byte_count=65535, attribute_id_list=attribute_id_list, continuation_state=continuation_state)) *) 8050009665557;
-  (* assert isinstance(response, SDP_ServiceAttributeResponse) *) 154117139780929;
-  (* accumulator += response.attribute_list *) 77307072694214;
-  (* continuation_state = response.continuation_state *) 96648795583662;
-  (* If len(continuation_state) == 1 and continuation_state[0] == 0 *) 279241905288810;
-  (* break *) 23003398819848;
-  (* End *) 269221943068527;
-  (* watchdog -= 1 *) 24033249487443;
-  (* End *) 269221943068527;
-  (* attribute_list_sequence = DataElement.from_bytes(accumulator) *) 244212266699826;
-  (* If attribute_list_sequence.type != DataElement.SEQUENCE *) 254699830230271;
-  (* return [] *) 30291628539750;
-  (* End *) 269221943068527;
-  (* return ServiceAttribute.list_from_data_elements(attribute_list_sequence.value) *) 215256759176313
-].
-Definition e_skel_avdtp_asm_reset : list Z := [
-  (* def reset(self) *) 252391477992998;
-  (* self.transaction_label = 0 *) 111392723096780;
-  (* self.message = None *) 106926703749944;
-  (* self.message_type = Message.MessageType.COMMAND *) 143713257620441;
-  (* self.signal_identifier = SignalIdentifier(0) *) 2917782519442;
-  (* self.number_of_signal_packets = 0 *) 156930724279227;
-  (* self.packet_count = 0 *) 193378948778533
-].
-Definition e_skel_avdtp_asm_on_pdu : list Z := [
-  (* def on_pdu(self, pdu) *) 47653129893153;
-  (* self.packet_count += 1 *) 176274891287520;
-  (* If not pdu *) 197171217046973;
-  (* return *) 124828667829939;
-  (* End *) 269221943068527;
-  (* transaction_label = pdu[0] >> 4 *) 65529851490168;
-  (* packet_type = Protocol.PacketType(pdu[0] >> 2 & 3) *) 42237232419137;
-  (* message_type = Message.MessageType(pdu[0] & 3) *) 138808165661928;
-  (* If packet_type in (Protocol.PacketType.SINGLE_PACKET, Protocol.PacketType.START_PACKET) *) 64738292738532;
-  (* If len(pdu) < 2 *) 209189889575378;
-  (* return *) 124828667829939;
-  (* End *) 269221943068527;
-  (* If packet_type == Protocol.PacketType.START_PACKET and len(pdu) < 3 *) 41547497215300;
-  (* return *) 124828667829939;
-  (* End *) 269221943068527;
-  (* If self.message is not None *) 252551933618153;
-  (* self.reset() *) 151430397993382;
-  (* End *) 269221943068527;
-  (* self.packet_count = 1 *) 169377066618877;
-  (* self.transaction_label = transaction_label *) 97811725192408;
-  (* self.signal_identifier = SignalIdentifier(pdu[1] & 63) *) 109941828660007;
-  (* self.message_type = message_type *) 100442759039140;
-  (* If packet_type == Protocol.PacketType.SINGLE_PACKET *) 117379903122078;
-  (* self.message = pdu[2:] *) 168014804245672;
-  (* self.on_message_complete() *) 188903559328579;
-  (* Else *) 172038525209843;
-  (* self.number_of_signal_packets = pdu[2] *) 187868345242650;
-  (* self.message = pdu[3:] *) 29361183290423;
-  (* End *) 269221943068527;
-  (* Else *) 172038525209843;
-  (* If packet_type in (Protocol.PacketType.CONTINUE_PACKET, Protocol.PacketType.END_PACKET) *) 212790989613948;
-  (* If self.packet_count == 0 *) 260282642246534;
-  (* return *) 124828667829939;
-  (* End *) 269221943068527;
-  (* If transaction_label != self.transaction_label *) 139779527774050;
-  (* return *) 124828667829939;
-  (* End *) 269221943068527;
-  (* If message_type != self.message_type *) 82333883826678;
-  (* return *) 124828667829939;
-  (* End *) 269221943068527;
-  (* self.message = (self.message or b'') + pdu[1:] *) 138375344839937;
-  (* If packet_type == Protocol.PacketType.END_PACKET *) 270478500135992;
-  (* If self.packet_count != self.number_of_signal_packets *) 112367863241051;
-  (* self.reset() *) 151430397993382;
-  (* return *) 124828667829939;
-  (* End *) 269221943068527;
-  (* self.on_message_complete() *) 188903559328579;
-  (* Else *) 172038525209843;
-  (* If self.packet_count > self.number_of_signal_packets *) 221855357888000;
-  (* self.reset() *) 151430397993382;
-  (* return *) 124828667829939;
-  (* End *) 269221943068527;
-  (* End *) 269221943068527;
-  (* End *) 269221943068527;
-  (* End *) 269221943068527
-].
-Definition e_skel_avdtp_asm_on_message_complete : list Z := [
-  (* def on_message_complete(self) *) 82074472197569;
-  (* message = Message.create(self.signal_identifier, self.message_type, self.message or b'') *) 147057390064040;
-  (* Try *) 147157398162686;
-  (* self.callback(self.transaction_label, message) *) 280334846063557;
-  (* Except Exception *) 147230200925634;
-  (* End *) 269221943068527;
-  (* self.reset() *) 151430397993382
-].
-Definition e_skel_avdtp_send_message : list Z := [
-  (* def send_message(self, transaction_label, message) *) 240233366466914;
-  (* max_fragment_size = self.l2cap_channel.peer_mtu - 3 *) 145698567070778;
-  (* payload = message.payload *) 150158970743278;
-  (* If len(payload) + 2 <= self.l2cap_channel.peer_mtu *) 57647383125745;
-  (* packet_type = self.PacketType.SINGLE_PACKET *) 177518810660292;
-  (* Else *) 172038525209843;
-  (* packet_type = self.PacketType.START_PACKET *) 84534391830356;
-  (* End *) 269221943068527;
-  (* done = False *) 105619833146793;
-  (* While not done *) 244536271035430;
-  (* first_header_byte = transaction_label << 4 | packet_type << 2 | message.message_type *) 100977728368529;
-  (* If packet_type == self.PacketType.SINGLE_PACKET *) 272275120596345;
-  (* header = bytes([first_header_byte, message.signal_identifier]) *) 185481122569706;
-  (* self.l2cap_channel.write(header + payload) *) 202975992399974;
-  (* return *) 124828667829939;
-  (* End *) 269221943068527;
-  (* If packet_type == self.PacketType.START_PACKET *) 150698139755505;
-  (* packet_count = (max_fragment_size - 1 + len(payload)) // max_fragment_size *) 244859731981631;
-  (* header = bytes([first_header_byte, message.signal_identifier, packet_count]) *) 163879317370313;
-  (* Else *) 172038525209843;
-  (* header = bytes([first_header_byte]) *) 247332108342417;
-  (* End *) 269221943068527;
-  (* self.l2cap_channel.write(header + payload[:max_fragment_size]) *) 81048533940697;
-  (* payload = payload[max_fragment_size:] *) 8851782290831;
-  (* If payload *) 239861758475980;
-  (* packet_type = self.PacketType.CONTINUE_PACKET if len(payload) > max_fragment_size else self.PacketType.END_PACKET *) 207315742434988;
-  (* Else *) 172038525209843;
-  (* done = True *) 72729656498682;
-  (* End *) 269221943068527;
-  (* End *) 269221943068527
-].
-Definition e_skel_avctp_asm_reset : list Z := [
-  (* def reset(self) *) 252391477992998;
-  (* self.packets_received = 0 *) 60185750146363;
-  (* self.transaction_label = -1 *) 232764918338964;
-  (* self.pid = -1 *) 25900545891162;
-  (* self.c_r = -1 *) 259706172163303;
-  (* self.ipid = -1 *) 251822324026930;
-  (* self.payload = b'' *) 155008479616025;
-  (* self.number_of_packets = 0 *) 238947965732023;
-  (* self.packet_count = 0 *) 193378948778533
-].
-Definition e_skel_avctp_asm_on_pdu : list Z := [
-  (* def on_pdu(self, pdu) *) 47653129893153;
-  (* self.packets_received += 1 *) 154609296927782;
-  (* transaction_label = pdu[0] >> 4 *) 65529851490168;
-  (* packet_type = Protocol.PacketType(pdu[0] >> 2 & 3) *) 42237232419137;
-  (* c_r = pdu[0] >> 1 & 1 *) 226269553857557;
-  (* ipid = pdu[0] & 1 *) 206529100955384;
-  (* If c_r == 0 and ipid != 0 *) 272851306558108;
-  (* self.reset() *) 151430397993382;
-  (* return *) 124828667829939;
-  (* End *) 269221943068527;
-  (* pid_offset = 1 *) 36803249604939;
-  (* If packet_type in (Protocol.PacketType.SINGLE, Protocol.PacketType.START) *) 118585771535724;
-  (* If self.transaction_label >= 0 *) 151695367923081;
-  (* End *) 269221943068527;
-  (* self.reset() *) 151430397993382;
-  (* self.packets_received = 1 *) 191585388409787;
-  (* If packet_type == Protocol.PacketType.START *) 105799622922645;
-  (* self.number_of_packets = pdu[1] *) 240526303489689;
-  (* pid_offset = 2 *) 168151770778461;
-  (* End *) 269221943068527;
-  (* End *) 269221943068527;
-  (* pid = struct.unpack_from('>H', pdu, pid_offset)[0] *) 42710724489352;
-  (* self.payload += pdu[pid_offset + 2:] *) 228276885709083;
-  (* If packet_type in (Protocol.PacketType.CONTINUE, Protocol.PacketType.END) *) 27801178476659;
-  (* If transaction_label != self.transaction_label *) 139779527774050;
-  (* self.reset() *) 151430397993382;
-  (* return *) 124828667829939;
-  (* End *) 269221943068527;
-  (* If pid != self.pid *) 277099344921410;
-  (* self.reset() *) 151430397993382;
-  (* return *) 124828667829939;
-  (* End *) 269221943068527;
-  (* If c_r != self.c_r *) 160336589384479;
-  (* self.reset() *) 151430397993382;
-  (* return *) 124828667829939;
-  (* End *) 269221943068527;
-  (* If self.packets_received > self.number_of_packets *) 240964571280790;
-  (* self.reset() *) 151430397993382;
-  (* return *) 124828667829939;
-  (* End *) 269221943068527;
-  (* If packet_type == Protocol.PacketType.END *) 152728788876370;
-  (* If self.packets_received != self.number_of_packets *) 162538521282335;
-  (* self.reset() *) 151430397993382;
-  (* return *) 124828667829939;
-  (* End *) 269221943068527;
-  (* End *) 269221943068527;
-  (* Else *) 172038525209843;
-  (* self.transaction_label = transaction_label *) 97811725192408;
-  (* self.c_r = c_r *) 26468209898872;
-  (* self.ipid = ipid *) 89128214513223;
-  (* self.pid = pid *) 24834586252440;
-  (* End *) 269221943068527;
-  (* If packet_type in (Protocol.PacketType.SINGLE, Protocol.PacketType.END) *) 214911865345237;
-  (* self.on_message_complete() *) 188903559328579;
-  (* End *) 269221943068527
-].
-Definition e_skel_avctp_asm_on_message_complete : list Z := [
-  (* def on_message_complete(self) *) 82074472197569;
-  (* Try *) 147157398162686;
-  (* self.callback(self.transaction_label, self.c_r == 0, self.ipid != 0, self.pid, self.payload) *) 81745875377845;
-  (* Except Exception *) 147230200925634;
-  (* End *) 269221943068527;
-  (* self.reset() *) 151430397993382
-].
-Definition e_skel_avdtp_stream_configure : list Z := [
-  (* async def configure(self) *) 199998997744955;
-  (* If self.state != State.IDLE *) 271057725873794;
-  (* raise InvalidStateError('current state is not IDLE') *) 179084500006516;
-  (* End *) 269221943068527;
-  (* await self.remote_endpoint.set_configuration(self.local_endpoint.seid, self.local_endpoint.configuration) *) 149494279712256;
-  (* self.change_state(State.CONFIGURED) *) 140660794158207
-].
-Definition e_skel_avdtp_stream_open : list Z := [
-  (* async def open(self) *) 236134889441525;
-  (* If self.state != State.CONFIGURED *) 69419725365659;
-  (* raise InvalidStateError('current state is not CONFIGURED') *) 100265169907021;
-  (* End *) 269221943068527;
-  (* await self.remote_endpoint.open() *) 160923903098298;
-  (* self.change_state(State.OPEN) *) 73724896437962;
-  (* self.rtp_channel = await self.protocol.l2cap_channel.connection.create_l2cap_channel(l2cap.ClassicChannelSpec(psm=AVDTP_PSM)) *) 101315524296490
-].
-Definition e_skel_avdtp_stream_start : list Z := [
-  (* async def start(self) *) 73929978924386;
-  (* If self.state == State.CONFIGURED *) 211546480268203;
-  (* await self.open() *) 247402695373635;
-  (* End *) 269221943068527;
-  (* If self.state != State.OPEN *) 193568178702537;
-  (* raise InvalidStateError('current state is not OPEN') *) 134810558215088;
-  (* End *) 269221943068527;
-  (* await self.remote_endpoint.start() *) 202430606302770;
-  (* await self.local_endpoint.start() *) 160984404495086;
-  (* self.change_state(State.STREAMING) *) 171112973978688
-].
-Definition e_skel_avdtp_stream_stop : list Z := [
-  (* async def stop(self) *) 87050788634817;
-  (* If self.state != State.STREAMING *) 57538083204796;
-  (* raise InvalidStateError('current state is not STREAMING') *) 226194586286785;
-  (* End *) 269221943068527;
-  (* await self.local_endpoint.stop() *) 100570535835053;
-  (* await self.remote_endpoint.stop() *) 59325549062921;
-  (* self.change_state(State.OPEN) *) 73724896437962
-].
-Definition e_skel_avdtp_stream_close : list Z := [
-  (* async def close(self) *) 248620657728793;
-  (* If self.state not in (State.OPEN, State.STREAMING) *) 164054973742597;
-  (* raise InvalidStateError('current state is not OPEN or STREAMING') *) 192868073292784;
-  (* End *) 269221943068527;
-  (* await self.local_endpoint.close() *) 91875758069323;
-  (* await self.remote_endpoint.close() *) 200527470739200;
-  (* self.change_state(State.CLOSING) *) 94334332443827;
-  (* If self.rtp_channel *) 251765341230621;
-  (* await self.rtp_channel.disconnect() *) 189905344071584;
-  (* self.rtp_channel = None *) 65809762499893;
-  (* End *) 269221943068527;
-  (* self.change_state(State.IDLE) *) 98729767874138
-].
-Definition e_skel_avdtp_stream_abort : list Z := [
-  (* async def abort(self) *) 155156975420381;
-  (* If self.state == State.IDLE *) 91377450944645;
-  (* raise InvalidStateError('current state is IDLE') *) 154192734369374;
-  (* End *) 269221943068527;
-  (* await self.remote_endpoint.abort() *) 200403419198547;
-  (* self.change_state(State.ABORTING) *) 182584976940063;
-  (* If self.rtp_channel *) 251765341230621;
-  (* await self.rtp_channel.disconnect() *) 189905344071584;
-  (* self.rtp_channel = None *) 65809762499893;
-  (* End *) 269221943068527;
-  (* self.change_state(State.IDLE) *) 98729767874138
-].
-Definition e_skel_avdtp_stream_on_set_configuration_command : list Z := [
-  (* async def on_set_configuration_command(self, configuration) *) 239384169799320;
-  (* If self.state != State.IDLE *) 271057725873794;
-  (* return Set_Configuration_Reject(error_code=AVDTP_BAD_STATE_ERROR) *) 171648763597631;
-  (* End *) 269221943068527;
-  (* result = await self.local_endpoint.on_set_configuration_command(configuration) *) 122425458960161;
-  (* If result is not None *) 89503986389067;
-  (* return result *) 211081663337526;
-  (* End *) 269221943068527;
-  (* self.change_state(State.CONFIGURED) *) 140660794158207;
-  (* return None *) 175316439560358
-].
-Definition e_skel_avdtp_stream_on_open_command : list Z := [
-  (* async def on_open_command(self) *) 248921923398522;
-  (* If self.state != State.CONFIGURED *) 69419725365659;
-  (* return Open_Reject(AVDTP_BAD_STATE_ERROR) *) 156445674620649;
-  (* End *) 269221943068527;
-  (* result = await self.local_endpoint.on_open_command() *) 162885705363430;
-  (* If result is not None *) 89503986389067;
-  (* return result *) 211081663337526;
-  (* End *) 269221943068527;
-  (* self.protocol.channel_acceptor = self *) 35449920845674;
-  (* self.change_state(State.OPEN) *) 73724896437962;
-  (* return None *) 175316439560358
-].
-Definition e_skel_avdtp_stream_on_start_command : list Z := [
-  (* async def on_start_command(self) *) 152871903224140;
-  (* If self.state != State.OPEN *) 193568178702537;
-  (* return Open_Reject(AVDTP_BAD_STATE_ERROR) *) 156445674620649;
-  (* End *) 269221943068527;
-  (* If self.rtp_channel is None *) 170835804616459;
-  (* return Open_Reject(AVDTP_BAD_STATE_ERROR) *) 156445674620649;
-  (* End *) 269221943068527;
-  (* result = await self.local_endpoint.on_start_command() *) 233779011192045;
-  (* If result is not None *) 89503986389067;
-  (* return result *) 211081663337526;
-  (* End *) 269221943068527;
-  (* self.change_state(State.STREAMING) *) 171112973978688;
-  (* return None *) 175316439560358
-].
-Definition e_skel_avdtp_stream_on_suspend_command : list Z := [
-  (* async def on_suspend_command(self) *) 175529289025580;
-  (* If self.state != State.STREAMING *) 57538083204796;
-  (* return Open_Reject(AVDTP_BAD_STATE_ERROR) *) 156445674620649;
-  (* End *) 269221943068527;
-  (* result = await self.local_endpoint.on_suspend_command() *) 272792342852410;
-  (* If result is not None *) 89503986389067;
-  (* return result *) 211081663337526;
-  (* End *) 269221943068527;
-  (* self.change_state(State.OPEN) *) 73724896437962;
-  (* return None *) 175316439560358
-].
-Definition e_skel_avdtp_stream_on_close_command : list Z := [
-  (* async def on_close_command(self) *) 168440055957823;
-  (* If self.state not in (State.OPEN, State.STREAMING) *) 164054973742597;
-  (* return Open_Reject(AVDTP_BAD_STATE_ERROR) *) 156445674620649;
-  (* End *) 269221943068527;
-  (* result = await self.local_endpoint.on_close_command() *) 84206462216458;
-  (* If result is not None *) 89503986389067;
-  (* return result *) 211081663337526;
-  (* End *) 269221943068527;
-  (* self.change_state(State.CLOSING) *) 94334332443827;
-  (* If self.rtp_channel is None *) 170835804616459;
-  (* self.change_state(State.IDLE) *) 98729767874138;
-  (* Else *) 172038525209843;
-  (* pass *) 236738344553891;
-  (* End *) 269221943068527;
-  (* return None *) 175316439560358
-].
-Definition e_skel_avdtp_stream_on_abort_command : list Z := [
-  (* async def on_abort_command(self) *) 132949377809661;
-  (* await self.local_endpoint.on_abort_command() *) 79024421047197;
-  (* If self.rtp_channel is None *) 170835804616459;
-  (* self.change_state(State.IDLE) *) 98729767874138;
-  (* Else *) 172038525209843;
-  (* self.change_state(State.ABORTING) *) 182584976940063;
-  (* End *) 269221943068527;
-  (* return None *) 175316439560358
-].
-Definition e_skel_avdtp_stream_on_get_configuration_command : list Z := [
-  (* async def on_get_configuration_command(self) *) 236020821170334;
-  (* If self.state not in (State.CONFIGURED, State.OPEN, State.STREAMING) *) 239902954638881;
-  (* return Get_Configuration_Reject(error_code=AVDTP_BAD_STATE_ERROR) *) 230347275740765;
-  (* End *) 269221943068527;
-  (* return await self.local_endpoint.on_get_configuration_command() *) 92161638462453
-].
-Definition e_skel_avdtp_stream_on_reconfigure_command : list Z := [
-  (* async def on_reconfigure_command(self, configuration) *) 237711983747856;
-  (* If self.state != State.OPEN *) 193568178702537;
-  (* return Reconfigure_Reject(error_code=AVDTP_BAD_STATE_ERROR) *) 273802743730753;
-  (* End *) 269221943068527;
-  (* result = await self.local_endpoint.on_reconfigure_command(configuration) *) 116429338108151;
-  (* If result is not None *) 89503986389067;
-  (* return result *) 211081663337526;
-  (* End *) 269221943068527;
-  (* return None *) 175316439560358
-].
-Definition e_skel_avdtp_stream_on_l2cap_connection : list Z := [
-  (* def on_l2cap_connection(self, channel) *) 150529790423419;
-  (* self.rtp_channel = channel *) 155269094875059;
-  (* channel.on(channel.EVENT_OPEN, self.on_l2cap_channel_open) *) 82003247707935;
-  (* channel.on(channel.EVENT_CLOSE, self.on_l2cap_channel_close) *) 262217840280050;
-  (* self.protocol.channel_acceptor = None *) 81724582034408
-].
-Definition e_skel_avdtp_stream_on_l2cap_channel_close : list Z := [
-  (* def on_l2cap_channel_close(self) *) 202469042613053;
-  (* self.local_endpoint.on_rtp_channel_close() *) 112656603242409;
-  (* self.rtp_channel = None *) 65809762499893;
-  (* If self.state in (State.CLOSING, State.ABORTING) *) 149010796160231;
-  (* self.change_state(State.IDLE) *) 98729767874138;
-  (* Else *) 172038525209843;
-  (* End *) 269221943068527
-].
-Definition e_skel_avdtp_protocol_on_set_configuration_command : list Z := [
-  (* async def on_set_configuration_command(self, command) *) 256585603879122;
-  (* endpoint = self.get_local_endpoint_by_seid(command.acp_seid) *) 251198801439410;
-  (* If endpoint is None *) 113644907703940;
-  (* return Set_Configuration_Reject(error_code=AVDTP_BAD_ACP_SEID_ERROR) *) 72364389859893;
-  (* End *) 269221943068527;
-  (* If endpoint.in_use *) 258214531574417;
-  (* return Set_Configuration_Reject(error_code=AVDTP_SEP_IN_USE_ERROR) *) 234211361017127;
-  (* End *) 269221943068527;
-  (* stream = Stream(self, endpoint, StreamEndPointProxy(self, command.int_seid)) *) 255306331364897;
-  (* self.streams[command.acp_seid] = stream *) 60302531679015;
-  (* result = await stream.on_set_configuration_command(command.capabilities) *) 13906597425152;
-  (* return result or Set_Configuration_Response() *) 2374676603456
-].
-Definition e_skel_avdtp_protocol_on_open_command : list Z := [
-  (* async def on_open_command(self, command) *) 188061907509769;
-  (* endpoint = self.get_local_endpoint_by_seid(command.acp_seid) *) 251198801439410;
-  (* If endpoint is None *) 113644907703940;
-  (* return Open_Reject(AVDTP_BAD_ACP_SEID_ERROR) *) 280780544118231;
-  (* End *) 269221943068527;
-  (* If endpoint.stream is None *) 264654461093664;
-  (* return Open_Reject(AVDTP_BAD_STATE_ERROR) *) 156445674620649;
-  (* End *) 269221943068527;
-  (* result = await endpoint.stream.on_open_command() *) 225761789895745;
-  (* return result or Open_Response() *) 156919128631599
-].
-Definition e_skel_avdtp_protocol_on_start_command : list Z := [
-  (* async def on_start_command(self, command) *) 212565660284643;
-  (* For seid in command.acp_seids *) 236563117050482;
-  (* endpoint = self.get_local_endpoint_by_seid(seid) *) 278018472682858;
-  (* If endpoint is None *) 113644907703940;
-  (* return Start_Reject(seid, AVDTP_BAD_ACP_SEID_ERROR) *) 276627482577262;
-  (* End *) 269221943068527;
-  (* If endpoint.stream is None *) 264654461093664;
-  (* return Start_Reject(seid, AVDTP_BAD_STATE_ERROR) *) 109428261086298;
-  (* End *) 269221943068527;
-  (* End *) 269221943068527;
-  (* For seid in command.acp_seids *) 236563117050482;
-  (* endpoint = self.get_local_endpoint_by_seid(seid) *) 278018472682858;
-  (* If not endpoint or not endpoint.stream *) 196241479063847;
-  (* raise InvalidStateError('Should already be checked!') *) 190604909718131;
-  (* End *) 269221943068527;
-  (* If (result := (await endpoint.stream.on_start_command())) is not None *) 139974933781649;
-  (* return result *) 211081663337526;
-  (* End *) 269221943068527;
-  (* End *) 269221943068527;
-  (* return Start_Response() *) 210290456783583
-].
-Definition e_skel_avdtp_protocol_on_suspend_command : list Z := [
-  (* async def on_suspend_command(self, command) *) 226352767375472;
-  (* For seid in command.acp_seids *) 236563117050482;
-  (* endpoint = self.get_local_endpoint_by_seid(seid) *) 278018472682858;
-  (* If endpoint is None *) 113644907703940;
-  (* return Suspend_Reject(seid, AVDTP_BAD_ACP_SEID_ERROR) *) 105980389788855;
-  (* End *) 269221943068527;
-  (* If endpoint.stream is None *) 264654461093664;
-  (* return Suspend_Reject(seid, AVDTP_BAD_STATE_ERROR) *) 196252423691713;
-  (* End *) 269221943068527;
-  (* End *) 269221943068527;
-  (* For seid in command.acp_seids *) 236563117050482;
-  (* endpoint = self.get_local_endpoint_by_seid(seid) *) 278018472682858;
-  (* If not endpoint or not endpoint.stream *) 196241479063847;
-  (* raise InvalidStateError('Should already be checked!') *) 190604909718131;
-  (* End *) 269221943068527;
-  (* If (result := (await endpoint.stream.on_suspend_command())) is not None *) 37946998799231;
-  (* return result *) 211081663337526;
-  (* End *) 269221943068527;
-  (* End *) 269221943068527;
-  (* return Suspend_Response() *) 242973355663650
-].
-Definition e_skel_avdtp_protocol_on_close_command : list Z := [
-  (* async def on_close_command(self, command) *) 90386482069536;
-  (* endpoint = self.get_local_endpoint_by_seid(command.acp_seid) *) 251198801439410;
-  (* If endpoint is None *) 113644907703940;
-  (* return Close_Reject(AVDTP_BAD_ACP_SEID_ERROR) *) 182003306303359;
-  (* End *) 269221943068527;
-  (* If endpoint.stream is None *) 264654461093664;
-  (* return Close_Reject(AVDTP_BAD_STATE_ERROR) *) 193208038930330;
-  (* End *) 269221943068527;
-  (* result = await endpoint.stream.on_close_command() *) 41767994524581;
-  (* return result or Close_Response() *) 251343016395243
-].
-Definition e_skel_avdtp_protocol_on_abort_command : list Z := [
-  (* async def on_abort_command(self, command) *) 16839521556234;
-  (* endpoint = self.get_local_endpoint_by_seid(command.acp_seid) *) 251198801439410;
-  (* If endpoint is None or endpoint.stream is None *) 263993191506135;
-  (* return Abort_Response() *) 219238711721020;
-  (* End *) 269221943068527;
-  (* await endpoint.stream.on_abort_command() *) 240682801631824;
-  (* return Abort_Response() *) 219238711721020
-].
-Definition e_skel_avdtp_protocol_on_get_configuration_command : list Z := [
-  (* async def on_get_configuration_command(self, command) *) 14454014818781;
-  (* endpoint = self.get_local_endpoint_by_seid(command.acp_seid) *) 251198801439410;
-  (* If endpoint is None *) 113644907703940;
-  (* return Get_Configuration_Reject(AVDTP_BAD_ACP_SEID_ERROR) *) 49135197930697;
-  (* End *) 269221943068527;
-  (* If endpoint.stream is None *) 264654461093664;
-  (* return Get_Configuration_Reject(AVDTP_BAD_STATE_ERROR) *) 155338701754000;
-  (* End *) 269221943068527;
-  (* return await endpoint.stream.on_get_configuration_command() *) 71195582111063
-].
-Definition e_skel_avdtp_protocol_on_reconfigure_command : list Z := [
-  (* async def on_reconfigure_command(self, command) *) 1816764601967;
-  (* endpoint = self.get_local_endpoint_by_seid(command.acp_seid) *) 251198801439410;
-  (* If endpoint is None *) 113644907703940;
-  (* return Reconfigure_Reject(error_code=AVDTP_BAD_ACP_SEID_ERROR) *) 206830819505024;
-  (* End *) 269221943068527;
-  (* If endpoint.stream is None *) 264654461093664;
-  (* return Reconfigure_Reject(error_code=AVDTP_BAD_STATE_ERROR) *) 273802743730753;
-  (* End *) 269221943068527;
-  (* result = await endpoint.stream.on_reconfigure_command(command.capabilities) *) 139966551458542;
-  (* return result or Reconfigure_Response() *) 36679964874460
-].
-Definition e_skel_avdtp_protocol_on_delayreport_command : list Z := [
-  (* async def on_delayreport_command(self, command) *) 199648444561707;
-  (* endpoint = self.get_local_endpoint_by_seid(command.acp_seid) *) 251198801439410;
-  (* If endpoint is None *) 113644907703940;
-  (* return DelayReport_Reject(AVDTP_BAD_ACP_SEID_ERROR) *) 17385660445691;
-  (* End *) 269221943068527;
-  (* result = await endpoint.on_delayreport_command(command.delay) *) 132564036920614;
-  (* return result or DelayReport_Response() *) 187446140349621
-].
-Definition e_skel_avdtp_protocol_on_l2cap_connection : list Z := [
-  (* def on_l2cap_connection(self, channel) *) 150529790423419;
-  (* If self.channel_acceptor is None *) 10284706867566;
-  (* return *) 124828667829939;
-  (* End *) 269221943068527;
-  (* self.channel_acceptor.on_l2cap_connection(channel) *) 3716891907052
-].
-Definition e_skeletons : list (list Z) := [e_skel_sdp_match_services; e_skel_sdp_on_connection; e_skel_sdp_select_channel; e_skel_sdp_on_channel_pdu; e_skel_sdp_on_channel_close; e_skel_sdp_check_continuation; e_skel_sdp_get_next_response_payload; e_skel_sdp_get_service_attributes; e_skel_sdp_on_search; e_skel_sdp_on_attribute; e_skel_sdp_on_search_attribute; e_skel_sdp_is_uuid_in_value; e_skel_sdp_list_from_data_elements; e_skel_sdp_client_on_pdu; e_skel_sdp_client_search_services; e_skel_sdp_client_search_attributes; e_skel_sdp_client_get_attributes; e_skel_avdtp_asm_reset; e_skel_avdtp_asm_on_pdu; e_skel_avdtp_asm_on_message_complete; e_skel_avdtp_send_message; e_skel_avctp_asm_reset; e_skel_avctp_asm_on_pdu; e_skel_avctp_asm_on_message_complete; e_skel_avdtp_stream_configure; e_skel_avdtp_stream_open; e_skel_avdtp_stream_start; e_skel_avdtp_stream_stop; e_skel_avdtp_stream_close; e_skel_avdtp_stream_abort; e_skel_avdtp_stream_on_set_configuration_command; e_skel_avdtp_stream_on_open_command; e_skel_avdtp_stream_on_start_command; e_skel_avdtp_stream_on_suspend_command; e_skel_avdtp_stream_on_close_command; e_skel_avdtp_stream_on_abort_command; e_skel_avdtp_stream_on_get_configuration_command; e_skel_avdtp_stream_on_reconfigure_command; e_skel_avdtp_stream_on_l2cap_connection; e_skel_avdtp_stream_on_l2cap_channel_close; e_skel_avdtp_protocol_on_set_configuration_command; e_skel_avdtp_protocol_on_open_command; e_skel_avdtp_protocol_on_start_command; e_skel_avdtp_protocol_on_suspend_command; e_skel_avdtp_protocol_on_close_command; e_skel_avdtp_protocol_on_abort_command; e_skel_avdtp_protocol_on_get_configuration_command; e_skel_avdtp_protocol_on_reconfigure_command; e_skel_avdtp_protocol_on_delayreport_command; e_skel_avdtp_protocol_on_l2cap_connection].
+(*
+   def match_services(self, search_pattern)
+   matching_services = {}
+   For (handle, service) in self.service_records.items()
+   If all((any((ServiceAttribute.is_uuid_in_value(uuid.value, attribute.value) for attribute in service)) for uuid in search_pattern.value))
+   matching_services[handle] = service
+   End
+   End
+   return matching_services
+*)
+Definition e_skel_sdp_match_services : Z := 261804520454309.
+(*
+   def on_connection(self, channel)
+   self.select_channel(channel)
+   channel.sink = lambda pdu: self.on_channel_pdu(channel, pdu)
+   channel.on(channel.EVENT_CLOSE, lambda: self.on_channel_close(channel))
+*)
+Definition e_skel_sdp_on_connection : Z := 118623709133037.
+(*
+   def select_channel(self, channel)
+   If channel is self.channel
+   return
+   End
+   If self.channel is not None
+   self.pending_responses[self.channel] = self.current_response
+   End
+   self.channel = channel
+   self.current_response = self.pending_responses.pop(channel, None)
+*)
+Definition e_skel_sdp_select_channel : Z := 154382687297369.
+(*
+   def on_channel_pdu(self, channel, pdu)
+   self.select_channel(channel)
+   self.on_pdu(pdu)
+*)
+Definition e_skel_sdp_on_channel_pdu : Z := 185079063739427.
+(*
+   def on_channel_close(self, channel)
+   self.pending_responses.pop(channel, None)
+   If channel is self.channel
+   self.channel = None
+   self.current_response = None
+   End
+*)
+Definition e_skel_sdp_on_channel_close : Z := 93031047072556.
+(*
+   def check_continuation(self, continuation_state, transaction_id)
+   If len(continuation_state) > 1
+   If self.current_response is None or continuation_state != self.CONTINUATION_STATE
+   self.send_response(SDP_ErrorResponse(transaction_id=transaction_id, error_code=ErrorCode.INVALID_CONTINUATION_STATE))
+   return None
+   End
+   return True
+   End
+   self.current_response = None
+   return False
+*)
+Definition e_skel_sdp_check_continuation : Z := 130658100004951.
+(*
+   def get_next_response_payload(self, maximum_size)
+   If len(self.current_response) > maximum_size
+   payload = self.current_response[:maximum_size]
+   continuation_state = Server.CONTINUATION_STATE
+   self.current_response = self.current_response[maximum_size:]
+   Else
+   payload = self.current_response
+   continuation_state = bytes([0])
+   self.current_response = None
+   End
+   return (payload, continuation_state)
+*)
+Definition e_skel_sdp_get_next_response_payload : Z := 52040303868069.
+(*
+   def get_service_attributes(service, attribute_ids)
+   attributes = []
+   For attribute_id in attribute_ids
+   If attribute_id.value_size == 4
+   id_range_start = attribute_id.value >> 16
+   id_range_end = attribute_id.value & 65535
+   Else
+   id_range_start = attribute_id.value
+   id_range_end = attribute_id.value
+   End
+   attributes += [attribute for attribute in service if attribute.id >= id_range_start and attribute.id <= id_range_end]
+   End
+   attributes.sort(key=lambda x: x.id)
+   attribute_list = DataElement.sequence([])
+   For attribute in attributes
+   attribute_list.value.append(DataElement.unsigned_integer_16(attribute.id))
+   attribute_list.value.append(attribute.value)
+   End
+   return attribute_list
+*)
+Definition e_skel_sdp_get_service_attributes : Z := 179066155230821.
+(*
+   def on_sdp_service_search_request(self, request)
+   If (continuation := self.check_continuation(request.continuation_state, request.transaction_id)) is None
+   return
+   End
+   If not continuation
+   matching_services = self.match_services(request.service_search_pattern)
+   service_record_handles = list(matching_services.keys())
+   service_record_handles_subset = service_record_handles[:request.maximum_service_record_count]
+   self.current_response = (len(service_record_handles), service_record_handles_subset)
+   End
+   assert isinstance(self.current_response, tuple)
+   assert self.channel is not None
+   total_service_record_count, service_record_handles = self.current_response
+   maximum_service_record_count = (self.channel.peer_mtu - 11) // 4
+   service_record_handles_remaining = service_record_handles[maximum_service_record_count:]
+   service_record_handles = service_record_handles[:maximum_service_record_count]
+   self.current_response = (total_service_record_count, service_record_handles_remaining)
+   continuation_state = Server.CONTINUATION_STATE if service_record_handles_remaining else bytes([0])
+   self.send_response(SDP_ServiceSearchResponse(transaction_id=request.transaction_id, total_service_record_count=total_service_record_count, service_record_handle_list=service_record_handles, continuation_state=continuation_state))
+*)
+Definition e_skel_sdp_on_search : Z := 177413770929407.
+(*
+   def on_sdp_service_attribute_request(self, request)
+   If (continuation := self.check_continuation(request.continuation_state, request.transaction_id)) is None
+   return
+   End
+   If not continuation
+   service = self.service_records.get(request.service_record_handle)
+   If service is None
+   self.send_response(SDP_ErrorResponse(transaction_id=request.transaction_id, error_code=ErrorCode.INVALID_SERVICE_RECORD_HANDLE))
+   return
+   End
+   attribute_list = Server.get_service_attributes(service, request.attribute_id_list.value)
+   self.current_response = bytes(attribute_list)
+   End
+   assert self.channel is not None
+   maximum_attribute_byte_count = min(request.maximum_attribute_byte_count, self.channel.peer_mtu - 9)
+   attribute_list_response, continuation_state = self.get_next_response_payload(maximum_attribute_byte_count)
+   self.send_response(SDP_ServiceAttributeResponse(transaction_id=request.transaction_id, attribute_list=attribute_list_response, continuation_state=continuation_state))
+*)
+Definition e_skel_sdp_on_attribute : Z := 271199259451687.
+(*
+   def on_sdp_service_search_attribute_request(self, request)
+   If (continuation := self.check_continuation(request.continuation_state, request.transaction_id)) is None
+   return
+   End
+   If not continuation
+   matching_services = self.match_services(request.service_search_pattern).values()
+   attribute_lists = DataElement.sequence([])
+   For service in matching_services
+   attribute_list = Server.get_service_attributes(service, request.attribute_id_list.value)
+   If attribute_list.value
+   attribute_lists.value.append(attribute_list)
+   End
+   End
+   self.current_response = bytes(attribute_lists)
+   End
+   assert self.channel is not None
+   maximum_attribute_byte_count = min(request.maximum_attribute_byte_count, self.channel.peer_mtu - 9)
+   attribute_lists_response, continuation_state = self.get_next_response_payload(maximum_attribute_byte_count)
+   self.send_response(SDP_ServiceSearchAttributeResponse(transaction_id=request.transaction_id, attribute_lists=attribute_lists_response, continuation_state=continuation_state))
+*)
+Definition e_skel_sdp_on_search_attribute : Z := 4317119426151.
+(*
+   def is_uuid_in_value(uuid, value)
+   If value.type == DataElement.UUID
+   return value.value == uuid
+   End
+   If value.type == DataElement.SEQUENCE
+   For element in value.value
+   If ServiceAttribute.is_uuid_in_value(uuid, element)
+   return True
+   End
+   End
+   return False
+   End
+   return False
+*)
+Definition e_skel_sdp_is_uuid_in_value : Z := 1163082583262.
+(*
+   def list_from_data_elements(elements)
+   attribute_list = []
+   For i in range(0, len(elements) // 2)
+   attribute_id, attribute_value = elements[2 * i:2 * (i + 1)]
+   If attribute_id.type != DataElement.UNSIGNED_INTEGER
+   continue
+   End
+   attribute_list.append(ServiceAttribute(attribute_id.value, attribute_value))
+   End
+   return attribute_list
+*)
+Definition e_skel_sdp_list_from_data_elements : Z := 255453510765455.
+(*
+   def on_pdu(self, pdu)
+   If not self.pending_request
+   return
+   End
+   assert self.pending_response is not None
+   response = SDP_PDU.from_bytes(pdu)
+   If self.pending_request.transaction_id != response.transaction_id
+   return
+   End
+   If isinstance(response, SDP_ErrorResponse)
+   self.pending_response.set_exception(ProtocolError(error_code=response.error_code))
+   return
+   End
+   If response.pdu_id != SDP_PDU.RESPONSE_PDU_IDS.get(self.pending_request.pdu_id)
+   return
+   End
+   self.pending_response.set_result(response)
+*)
+Definition e_skel_sdp_client_on_pdu : Z := 259027248949766.
+(*
+   async def search_services(self, uuids)
+   If self.pending_request is not None
+   raise InvalidStateError('request already pending')
+   End
+   If self.channel is None
+   raise InvalidStateError('L2CAP not connected')
+   End
+   service_search_pattern = DataElement.sequence([DataElement.uuid(uuid) for uuid in uuids])
+   service_record_handle_list: list[int] = []
+   continuation_state = bytes([0])
+   watchdog = SDP_CONTINUATION_WATCHDOG
+   While watchdog > 0
+   response = await self.send_request(SDP_ServiceSearchRequest(transaction_id=self.make_transaction_id(), service_search_pattern=service_search_pattern, maximum_service_record_count=65535, continuation_state=continuation_state))
+   assert isinstance(response, SDP_ServiceSearchResponse)
+   service_record_handle_list += response.service_record_handle_list
+   continuation_state = response.continuation_state
+   If len(continuation_state) == 1 and continuation_state[0] == 0
+   break
+   End
+   watchdog -= 1
+   End
+   return service_record_handle_list
+*)
+Definition e_skel_sdp_client_search_services : Z := 203795795215336.
+(*
+   async def search_attributes(self, uuids, attribute_ids)
+   If self.pending_request is not None
+   raise InvalidStateError('request already pending')
+   End
+   If self.channel is None
+   raise InvalidStateError('L2CAP not connected')
+   End
+   service_search_pattern = DataElement.sequence([DataElement.uuid(uuid) for uuid in uuids])
+   attribute_id_list = DataElement.sequence([DataElement.unsigned_integer_32(attribute_id[0] << 16 | attribute_id[1]) if isinstance(attribute_id, tuple) else DataElement.unsigned_integer_16(attribute_id) for attribute_id in attribute_ids])
+   accumulator = b''
+   continuation_state = bytes([0])
+   watchdog = SDP_CONTINUATION_WATCHDOG
+   While watchdog > 0
+   response = await self.send_request(SDP_ServiceSearchAttributeRequest(transaction_id=self.make_transaction_id(), service_search_pattern=service_search_pattern, maximum_attribute_byte_count=65535, attribute_id_list=attribute_id_list, continuation_state=continuation_state))
+   assert isinstance(response, SDP_ServiceSearchAttributeResponse)
+   accumulator += response.attribute_lists
+   continuation_state = response.continuation_state
+   If len(continuation_state) == 1 and continuation_state[0] == 0
+   break
+   End
+   watchdog -= 1
+   End
+   attribute_lists_sequences = DataElement.from_bytes(accumulator)
+   If attribute_lists_sequences.type != DataElement.SEQUENCE
+   return []
+   End
+   return [ServiceAttribute.list_from_data_elements(sequence.value) for sequence in attribute_lists_sequences.value if sequence.type == DataElement.SEQUENCE]
+*)
+Definition e_skel_sdp_client_search_attributes : Z := 26597128948447.
+(*
+   async def get_attributes(self, service_record_handle, attribute_ids)
+   If self.pending_request is not None
+   raise InvalidStateError('request already pending')
+   End
+   If self.channel is None
+   raise InvalidStateError('L2CAP not connected')
+   End
+   attribute_id_list = DataElement.sequence([DataElement.unsigned_integer_32(attribute_id[0] << 16 | attribute_id[1]) if isinstance(attribute_id, tuple) else DataElement.unsigned_integer_16(attribute_id) for attribute_id in attribute_ids])
+   accumulator = b''
+   continuation_state = bytes([0])
+   watchdog = SDP_CONTINUATION_WATCHDOG
+   While watchdog > 0
+   response = await self.send_request(SDP_ServiceAttributeRequest(transaction_id=self.make_transaction_id(), service_record_handle=service_record_handle, maximum_attribute_byte_count=65535, attribute_id_list=attribute_id_list, continuation_state=continuation_state))
+   assert isinstance(response, SDP_ServiceAttributeResponse)
+   accumulator += response.attribute_list
+   continuation_state = response.continuation_state
+   If len(continuation_state) == 1 and continuation_state[0] == 0
+   break
+   End
+   watchdog -= 1
+   End
+   attribute_list_sequence = DataElement.from_bytes(accumulator)
+   If attribute_list_sequence.type != DataElement.SEQUENCE
+   return []
+   End
+   return ServiceAttribute.list_from_data_elements(attribute_list_sequence.value)
+*)
+Definition e_skel_sdp_client_get_attributes : Z := 266523341295375.
+(*
+   def reset(self)
+   self.transaction_label = 0
+   self.message = None
+   self.message_type = Message.MessageType.COMMAND
+   self.signal_identifier = SignalIdentifier(0)
+   self.number_of_signal_packets = 0
+   self.packet_count = 0
+*)
+Definition e_skel_avdtp_asm_reset : Z := 1243454555148.
+(*
+   def on_pdu(self, pdu)
+   self.packet_count += 1
+   If not pdu
+   return
+   End
+   transaction_label = pdu[0] >> 4
+   packet_type = Protocol.PacketType(pdu[0] >> 2 & 3)
+   message_type = Message.MessageType(pdu[0] & 3)
+   If packet_type in (Protocol.PacketType.SINGLE_PACKET, Protocol.PacketType.START_PACKET)
+   If len(pdu) < 2
+   return
+   End
+   If packet_type == Protocol.PacketType.START_PACKET and len(pdu) < 3
+   return
+   End
+   If self.message is not None
+   self.reset()
+   End
+   self.packet_count = 1
+   self.transaction_label = transaction_label
+   self.signal_identifier = SignalIdentifier(pdu[1] & 63)
+   self.message_type = message_type
+   If packet_type == Protocol.PacketType.SINGLE_PACKET
+   self.message = pdu[2:]
+   self.on_message_complete()
+   Else
+   self.number_of_signal_packets = pdu[2]
+   self.message = pdu[3:]
+   End
+   Else
+   If packet_type in (Protocol.PacketType.CONTINUE_PACKET, Protocol.PacketType.END_PACKET)
+   If self.packet_count == 0
+   return
+   End
+   If transaction_label != self.transaction_label
+   return
+   End
+   If message_type != self.message_type
+   return
+   End
+   self.message = (self.message or b'') + pdu[1:]
+   If packet_type == Protocol.PacketType.END_PACKET
+   If self.packet_count != self.number_of_signal_packets
+   self.reset()
+   return
+   End
+   self.on_message_complete()
+   Else
+   If self.packet_count > self.number_of_signal_packets
+   self.reset()
+   return
+   End
+   End
+   End
+   End
+*)
+Definition e_skel_avdtp_asm_on_pdu : Z := 141253693608610.
+(*
+   def on_message_complete(self)
+   message = Message.create(self.signal_identifier, self.message_type, self.message or b'')
+   Try
+   self.callback(self.transaction_label, message)
+   Except Exception
+   End
+   self.reset()
+*)
+Definition e_skel_avdtp_asm_on_message_complete : Z := 27665166003564.
+(*
+   def send_message(self, transaction_label, message)
+   max_fragment_size = self.l2cap_channel.peer_mtu - 3
+   payload = message.payload
+   If len(payload) + 2 <= self.l2cap_channel.peer_mtu
+   packet_type = self.PacketType.SINGLE_PACKET
+   Else
+   packet_type = self.PacketType.START_PACKET
+   End
+   done = False
+   While not done
+   first_header_byte = transaction_label << 4 | packet_type << 2 | message.message_type
+   If packet_type == self.PacketType.SINGLE_PACKET
+   header = bytes([first_header_byte, message.signal_identifier])
+   self.l2cap_channel.write(header + payload)
+   return
+   End
+   If packet_type == self.PacketType.START_PACKET
+   packet_count = (max_fragment_size - 1 + len(payload)) // max_fragment_size
+   header = bytes([first_header_byte, message.signal_identifier, packet_count])
+   Else
+   header = bytes([first_header_byte])
+   End
+   self.l2cap_channel.write(header + payload[:max_fragment_size])
+   payload = payload[max_fragment_size:]
+   If payload
+   packet_type = self.PacketType.CONTINUE_PACKET if len(payload) > max_fragment_size else self.PacketType.END_PACKET
+   Else
+   done = True
+   End
+   End
+*)
+Definition e_skel_avdtp_send_message : Z := 213438006366653.
+(*
+   def reset(self)
+   self.packets_received = 0
+   self.transaction_label = -1
+   self.pid = -1
+   self.c_r = -1
+   self.ipid = -1
+   self.payload = b''
+   self.number_of_packets = 0
+   self.packet_count = 0
+*)
+Definition e_skel_avctp_asm_reset : Z := 224200168136482.
+(*
+   def on_pdu(self, pdu)
+   self.packets_received += 1
+   transaction_label = pdu[0] >> 4
+   packet_type = Protocol.PacketType(pdu[0] >> 2 & 3)
+   c_r = pdu[0] >> 1 & 1
+   ipid = pdu[0] & 1
+   If c_r == 0 and ipid != 0
+   self.reset()
+   return
+   End
+   pid_offset = 1
+   If packet_type in (Protocol.PacketType.SINGLE, Protocol.PacketType.START)
+   If self.transaction_label >= 0
+   End
+   self.reset()
+   self.packets_received = 1
+   If packet_type == Protocol.PacketType.START
+   self.number_of_packets = pdu[1]
+   pid_offset = 2
+   End
+   End
+   pid = struct.unpack_from('>H', pdu, pid_offset)[0]
+   self.payload += pdu[pid_offset + 2:]
+   If packet_type in (Protocol.PacketType.CONTINUE, Protocol.PacketType.END)
+   If transaction_label != self.transaction_label
+   self.reset()
+   return
+   End
+   If pid != self.pid
+   self.reset()
+   return
+   End
+   If c_r != self.c_r
+   self.reset()
+   return
+   End
+   If self.packets_received > self.number_of_packets
+   self.reset()
+   return
+   End
+   If packet_type == Protocol.PacketType.END
+   If self.packets_received != self.number_of_packets
+   self.reset()
+   return
+   End
+   End
+   Else
+   self.transaction_label = transaction_label
+   self.c_r = c_r
+   self.ipid = ipid
+   self.pid = pid
+   End
+   If packet_type in (Protocol.PacketType.SINGLE, Protocol.PacketType.END)
+   self.on_message_complete()
+   End
+*)
+Definition e_skel_avctp_asm_on_pdu : Z := 277653122634346.
+(*
+   def on_message_complete(self)
+   Try
+   self.callback(self.transaction_label, self.c_r == 0, self.ipid != 0, self.pid, self.payload)
+   Except Exception
+   End
+   self.reset()
+*)
+Definition e_skel_avctp_asm_on_message_complete : Z := 14437066286081.
+(*
+   async def configure(self)
+   If self.state != State.IDLE
+   raise InvalidStateError('current state is not IDLE')
+   End
+   await self.remote_endpoint.set_configuration(self.local_endpoint.seid, self.local_endpoint.configuration)
+   self.change_state(State.CONFIGURED)
+*)
+Definition e_skel_avdtp_stream_configure : Z := 161377340543377.
+(*
+   async def open(self)
+   If self.state != State.CONFIGURED
+   raise InvalidStateError('current state is not CONFIGURED')
+   End
+   await self.remote_endpoint.open()
+   self.change_state(State.OPEN)
+   self.rtp_channel = await self.protocol.l2cap_channel.connection.create_l2cap_channel(l2cap.ClassicChannelSpec(psm=AVDTP_PSM))
+*)
+Definition e_skel_avdtp_stream_open : Z := 126261788735659.
+(*
+   async def start(self)
+   If self.state == State.CONFIGURED
+   await self.open()
+   End
+   If self.state != State.OPEN
+   raise InvalidStateError('current state is not OPEN')
+   End
+   await self.remote_endpoint.start()
+   await self.local_endpoint.start()
+   self.change_state(State.STREAMING)
+*)
+Definition e_skel_avdtp_stream_start : Z := 19283799422816.
+(*
+   async def stop(self)
+   If self.state != State.STREAMING
+   raise InvalidStateError('current state is not STREAMING')
+   End
+   await self.local_endpoint.stop()
+   await self.remote_endpoint.stop()
+   self.change_state(State.OPEN)
+*)
+Definition e_skel_avdtp_stream_stop : Z := 201180333738889.
+(*
+   async def close(self)
+   If self.state not in (State.OPEN, State.STREAMING)
+   raise InvalidStateError('current state is not OPEN or STREAMING')
+   End
+   await self.local_endpoint.close()
+   await self.remote_endpoint.close()
+   self.change_state(State.CLOSING)
+   If self.rtp_channel
+   await self.rtp_channel.disconnect()
+   self.rtp_channel = None
+   End
+   self.change_state(State.IDLE)
+*)
+Definition e_skel_avdtp_stream_close : Z := 39246323133242.
+(*
+   async def abort(self)
+   If self.state == State.IDLE
+   raise InvalidStateError('current state is IDLE')
+   End
+   await self.remote_endpoint.abort()
+   self.change_state(State.ABORTING)
+   If self.rtp_channel
+   await self.rtp_channel.disconnect()
+   self.rtp_channel = None
+   End
+   self.change_state(State.IDLE)
+*)
+Definition e_skel_avdtp_stream_abort : Z := 133738415956322.
+(*
+   async def on_set_configuration_command(self, configuration)
+   If self.state != State.IDLE
+   return Set_Configuration_Reject(error_code=AVDTP_BAD_STATE_ERROR)
+   End
+   result = await self.local_endpoint.on_set_configuration_command(configuration)
+   If result is not None
+   return result
+   End
+   self.change_state(State.CONFIGURED)
+   return None
+*)
+Definition e_skel_avdtp_stream_on_set_configuration_command : Z := 27956947502457.
+(*
+   async def on_open_command(self)
+   If self.state != State.CONFIGURED
+   return Open_Reject(AVDTP_BAD_STATE_ERROR)
+   End
+   result = await self.local_endpoint.on_open_command()
+   If result is not None
+   return result
+   End
+   self.protocol.channel_acceptor = self
+   self.change_state(State.OPEN)
+   return None
+*)
+Definition e_skel_avdtp_stream_on_open_command : Z := 200529901459777.
+(*
+   async def on_start_command(self)
+   If self.state != State.OPEN
+   return Open_Reject(AVDTP_BAD_STATE_ERROR)
+   End
+   If self.rtp_channel is None
+   return Open_Reject(AVDTP_BAD_STATE_ERROR)
+   End
+   result = await self.local_endpoint.on_start_command()
+   If result is not None
+   return result
+   End
+   self.change_state(State.STREAMING)
+   return None
+*)
+Definition e_skel_avdtp_stream_on_start_command : Z := 55426551316636.
+(*
+   async def on_suspend_command(self)
+   If self.state != State.STREAMING
+   return Open_Reject(AVDTP_BAD_STATE_ERROR)
+   End
+   result = await self.local_endpoint.on_suspend_command()
+   If result is not None
+   return result
+   End
+   self.change_state(State.OPEN)
+   return None
+*)
+Definition e_skel_avdtp_stream_on_suspend_command : Z := 232767218923601.
+(*
+   async def on_close_command(self)
+   If self.state not in (State.OPEN, State.STREAMING)
+   return Open_Reject(AVDTP_BAD_STATE_ERROR)
+   End
+   result = await self.local_endpoint.on_close_command()
+   If result is not None
+   return result
+   End
+   self.change_state(State.CLOSING)
+   If self.rtp_channel is None
+   self.change_state(State.IDLE)
+   Else
+   pass
+   End
+   return None
+*)
+Definition e_skel_avdtp_stream_on_close_command : Z := 203664015158733.
+(*
+   async def on_abort_command(self)
+   await self.local_endpoint.on_abort_command()
+   If self.rtp_channel is None
+   self.change_state(State.IDLE)
+   Else
+   self.change_state(State.ABORTING)
+   End
+   return None
+*)
+Definition e_skel_avdtp_stream_on_abort_command : Z := 102448982214525.
+(*
+   async def on_get_configuration_command(self)
+   If self.state not in (State.CONFIGURED, State.OPEN, State.STREAMING)
+   return Get_Configuration_Reject(error_code=AVDTP_BAD_STATE_ERROR)
+   End
+   return await self.local_endpoint.on_get_configuration_command()
+*)
+Definition e_skel_avdtp_stream_on_get_configuration_command : Z := 14086828442955.
+(*
+   async def on_reconfigure_command(self, configuration)
+   If self.state != State.OPEN
+   return Reconfigure_Reject(error_code=AVDTP_BAD_STATE_ERROR)
+   End
+   result = await self.local_endpoint.on_reconfigure_command(configuration)
+   If result is not None
+   return result
+   End
+   return None
+*)
+Definition e_skel_avdtp_stream_on_reconfigure_command : Z := 71988250198981.
+(*
+   def on_l2cap_connection(self, channel)
+   self.rtp_channel = channel
+   channel.on(channel.EVENT_OPEN, self.on_l2cap_channel_open)
+   channel.on(channel.EVENT_CLOSE, self.on_l2cap_channel_close)
+   self.protocol.channel_acceptor = None
+*)
+Definition e_skel_avdtp_stream_on_l2cap_connection : Z := 10766926885639.
+(*
+   def on_l2cap_channel_close(self)
+   self.local_endpoint.on_rtp_channel_close()
+   self.rtp_channel = None
+   If self.state in (State.CLOSING, State.ABORTING)
+   self.change_state(State.IDLE)
+   Else
+   End
+*)
+Definition e_skel_avdtp_stream_on_l2cap_channel_close : Z := 29747046192328.
+(*
+   async def on_set_configuration_command(self, command)
+   endpoint = self.get_local_endpoint_by_seid(command.acp_seid)
+   If endpoint is None
+   return Set_Configuration_Reject(error_code=AVDTP_BAD_ACP_SEID_ERROR)
+   End
+   If endpoint.in_use
+   return Set_Configuration_Reject(error_code=AVDTP_SEP_IN_USE_ERROR)
+   End
+   stream = Stream(self, endpoint, StreamEndPointProxy(self, command.int_seid))
+   self.streams[command.acp_seid] = stream
+   result = await stream.on_set_configuration_command(command.capabilities)
+   return result or Set_Configuration_Response()
+*)
+Definition e_skel_avdtp_protocol_on_set_configuration_command : Z := 37423847644153.
+(*
+   async def on_open_command(self, command)
+   endpoint = self.get_local_endpoint_by_seid(command.acp_seid)
+   If endpoint is None
+   return Open_Reject(AVDTP_BAD_ACP_SEID_ERROR)
+   End
+   If endpoint.stream is None
+   return Open_Reject(AVDTP_BAD_STATE_ERROR)
+   End
+   result = await endpoint.stream.on_open_command()
+   return result or Open_Response()
+*)
+Definition e_skel_avdtp_protocol_on_open_command : Z := 164337813013010.
+(*
+   async def on_start_command(self, command)
+   For seid in command.acp_seids
+   endpoint = self.get_local_endpoint_by_seid(seid)
+   If endpoint is None
+   return Start_Reject(seid, AVDTP_BAD_ACP_SEID_ERROR)
+   End
+   If endpoint.stream is None
+   return Start_Reject(seid, AVDTP_BAD_STATE_ERROR)
+   End
+   End
+   For seid in command.acp_seids
+   endpoint = self.get_local_endpoint_by_seid(seid)
+   If not endpoint or not endpoint.stream
+   raise InvalidStateError('Should already be checked!')
+   End
+   If (result := (await endpoint.stream.on_start_command())) is not None
+   return result
+   End
+   End
+   return Start_Response()
+*)
+Definition e_skel_avdtp_protocol_on_start_command : Z := 233773968338573.
+(*
+   async def on_suspend_command(self, command)
+   For seid in command.acp_seids
+   endpoint = self.get_local_endpoint_by_seid(seid)
+   If endpoint is None
+   return Suspend_Reject(seid, AVDTP_BAD_ACP_SEID_ERROR)
+   End
+   If endpoint.stream is None
+   return Suspend_Reject(seid, AVDTP_BAD_STATE_ERROR)
+   End
+   End
+   For seid in command.acp_seids
+   endpoint = self.get_local_endpoint_by_seid(seid)
+   If not endpoint or not endpoint.stream
+   raise InvalidStateError('Should already be checked!')
+   End
+   If (result := (await endpoint.stream.on_suspend_command())) is not None
+   return result
+   End
+   End
+   return Suspend_Response()
+*)
+Definition e_skel_avdtp_protocol_on_suspend_command : Z := 28096714645975.
+(*
+   async def on_close_command(self, command)
+   endpoint = self.get_local_endpoint_by_seid(command.acp_seid)
+   If endpoint is None
+   return Close_Reject(AVDTP_BAD_ACP_SEID_ERROR)
+   End
+   If endpoint.stream is None
+   return Close_Reject(AVDTP_BAD_STATE_ERROR)
+   End
+   result = await endpoint.stream.on_close_command()
+   return result or Close_Response()
+*)
+Definition e_skel_avdtp_protocol_on_close_command : Z := 73021617641157.
+(*
+   async def on_abort_command(self, command)
+   endpoint = self.get_local_endpoint_by_seid(command.acp_seid)
+   If endpoint is None or endpoint.stream is None
+   return Abort_Response()
+   End
+   await endpoint.stream.on_abort_command()
+   return Abort_Response()
+*)
+Definition e_skel_avdtp_protocol_on_abort_command : Z := 28603217519011.
+(*
+   async def on_get_configuration_command(self, command)
+   endpoint = self.get_local_endpoint_by_seid(command.acp_seid)
+   If endpoint is None
+   return Get_Configuration_Reject(AVDTP_BAD_ACP_SEID_ERROR)
+   End
+   If endpoint.stream is None
+   return Get_Configuration_Reject(AVDTP_BAD_STATE_ERROR)
+   End
+   return await endpoint.stream.on_get_configuration_command()
+*)
+Definition e_skel_avdtp_protocol_on_get_configuration_command : Z := 26492186764380.
+(*
+   async def on_reconfigure_command(self, command)
+   endpoint = self.get_local_endpoint_by_seid(command.acp_seid)
+   If endpoint is None
+   return Reconfigure_Reject(error_code=AVDTP_BAD_ACP_SEID_ERROR)
+   End
+   If endpoint.stream is None
+   return Reconfigure_Reject(error_code=AVDTP_BAD_STATE_ERROR)
+   End
+   result = await endpoint.stream.on_reconfigure_command(command.capabilities)
+   return result or Reconfigure_Response()
+*)
+Definition e_skel_avdtp_protocol_on_reconfigure_command : Z := 63136240077892.
+(*
+   async def on_delayreport_command(self, command)
+   endpoint = self.get_local_endpoint_by_seid(command.acp_seid)
+   If endpoint is None
+   return DelayReport_Reject(AVDTP_BAD_ACP_SEID_ERROR)
+   End
+   result = await endpoint.on_delayreport_command(command.delay)
+   return result or DelayReport_Response()
+*)
+Definition e_skel_avdtp_protocol_on_delayreport_command : Z := 182972657661975.
+(*
+   def on_l2cap_connection(self, channel)
+   If self.channel_acceptor is None
+   return
+   End
+   self.channel_acceptor.on_l2cap_connection(channel)
+*)
+Definition e_skel_avdtp_protocol_on_l2cap_connection : Z := 226078155553958.
+Definition e_skeletons : list Z := [e_skel_sdp_match_services; e_skel_sdp_on_connection; e_skel_sdp_select_channel; e_skel_sdp_on_channel_pdu; e_skel_sdp_on_channel_close; e_skel_sdp_check_continuation; e_skel_sdp_get_next_response_payload; e_skel_sdp_get_service_attributes; e_skel_sdp_on_search; e_skel_sdp_on_attribute; e_skel_sdp_on_search_attribute; e_skel_sdp_is_uuid_in_value; e_skel_sdp_list_from_data_elements; e_skel_sdp_client_on_pdu; e_skel_sdp_client_search_services; e_skel_sdp_client_search_attributes; e_skel_sdp_client_get_attributes; e_skel_avdtp_asm_reset; e_skel_avdtp_asm_on_pdu; e_skel_avdtp_asm_on_message_complete; e_skel_avdtp_send_message; e_skel_avctp_asm_reset; e_skel_avctp_asm_on_pdu; e_skel_avctp_asm_on_message_complete; e_skel_avdtp_stream_configure; e_skel_avdtp_stream_open; e_skel_avdtp_stream_start; e_skel_avdtp_stream_stop; e_skel_avdtp_stream_close; e_skel_avdtp_stream_abort; e_skel_avdtp_stream_on_set_configuration_command; e_skel_avdtp_stream_on_open_command; e_skel_avdtp_stream_on_start_command; e_skel_avdtp_stream_on_suspend_command; e_skel_avdtp_stream_on_close_command; e_skel_avdtp_stream_on_abort_command; e_skel_avdtp_stream_on_get_configuration_command; e_skel_avdtp_stream_on_reconfigure_command; e_skel_avdtp_stream_on_l2cap_connection; e_skel_avdtp_stream_on_l2cap_channel_close; e_skel_avdtp_protocol_on_set_configuration_command; e_skel_avdtp_protocol_on_open_command; e_skel_avdtp_protocol_on_start_command; e_skel_avdtp_protocol_on_suspend_command; e_skel_avdtp_protocol_on_close_command; e_skel_avdtp_protocol_on_abort_command; e_skel_avdtp_protocol_on_get_configuration_command; e_skel_avdtp_protocol_on_reconfigure_command; e_skel_avdtp_protocol_on_delayreport_command; e_skel_avdtp_protocol_on_l2cap_connection].
